@@ -250,7 +250,8 @@ fn run_server(tier: Tier, rng: &mut Rng, out: &mut Out) {
     let mut steady: Option<(u32, u32)> = if rng.coin() { Some((rng.u32_boundary(), *rng.pick(&[0u32, 20, 33, 40, 1000]))) } else { None };
     let steady_len = *rng.pick(&[0usize, 1, 10, 127, 128, 129, 300]);
     let mut log: Vec<Value> = vec![json!({"start_clock_ms": start})];
-    let len = rng.usize(5, 50);
+    let many_streams: usize = if rng.chance(1, 15) { rng.usize(25, 70) } else { 0 };
+    let len = rng.usize(5, 50) + 2 * many_streams;
     let (mut c24, mut c32) = (false, false);
     let mut shape = 0u64;
     // the window announcement makes acknowledgements appear in the log as well
@@ -262,7 +263,14 @@ fn run_server(tier: Tier, rng: &mut Rng, out: &mut Out) {
             None
         } else {
             // media sends are frequent here
-            Some(if rng.chance(1, 4) {
+            // one history in fifteen creates 25-70 streams once connected and plays / publishes on
+            // any of them (message stream ids beyond the first few)
+            Some(if many_streams > 0 && model.connected_app.is_some() && model.streams.len() < many_streams {
+                c09::Sym::CreateStream
+            } else if many_streams > 0 && rng.chance(1, 3) {
+                let any = c09::StreamSel::Random(rng.u8());
+                *rng.pick(&[c09::Sym::Play(any, c09::ArgForm::Good), c09::Sym::Publish(any, c09::ArgForm::Good), c09::Sym::SendVideo(any), c09::Sym::SendAudio(any), c09::Sym::Accept(c09::IdSel::Oldest), c09::Sym::Accept(c09::IdSel::Oldest)])
+            } else if rng.chance(1, 4) {
                 *rng.pick(&[c09::Sym::SendAudio(c09::StreamSel::Last), c09::Sym::SendVideo(c09::StreamSel::Last), c09::Sym::SendVideo(c09::StreamSel::First), c09::Sym::SendMeta(c09::StreamSel::Last), c09::Sym::PingRequest])
             } else {
                 c09::random_sym(rng, &model)
